@@ -194,6 +194,13 @@ pub fn family_f() -> Vec<String> {
     pats.push("X$i < X$i <= Y$i".into());
     pats.push("X != X".into());
     pats.push("1 = 1".into());
+    // equations / disequations between two different constants
+    pats.push("1 = 2".into());
+    pats.push("2 = 1".into());
+    pats.push("1 != 2".into());
+    pats.push("a = b".into());
+    pats.push("1 = a".into());
+    pats.push("X$i = 1 and X$i = 2".into());
     pats.push("a = a != X".into());
     let mut out = pats.clone();
     for pt in &pats {
